@@ -190,7 +190,9 @@ Record lists := mkLists {
   l_block : list nentry;       (* covert_blocklist_subnets  (absent key = empty list) *)
   l_allow : list nentry;       (* covert_allowlist_subnets *)
   l_phantom : list nentry;     (* phantom_blocklist *)
-  l_domains : list pentry }.   (* covert_blocklist_domains *)
+  l_domains : list pentry;     (* covert_blocklist_domains *)
+  l_public : bool }.           (* covert_blocklist_public_addrs: the subnets of the machine's own interfaces
+                                  (net.Interfaces / Addrs at load time) are implicit blocklist entries *)
 (* the configuration file of a (re)load: EFail = unreadable, syntax or type error anywhere *)
 Inductive efile := EFail | ELists (l : lists).
 
@@ -208,14 +210,15 @@ Fixpoint parse_pats (l : list pentry) : option (list pattern) :=
   | POk p :: r => match parse_pats r with Some q => Some (p :: q) | None => None end
   | PBad :: _ => None
   end.
-(* ParseBlocklists (covert_blocklist_public_addrs off): None = the load fails *)
-Definition parse_lists (l : lists) : option epolicy :=
+(* ParseBlocklists: None = the load fails.  ifaces: the interface subnets of the machine (external) *)
+Definition implicit_block (ifaces : list ipnet) (l : lists) : list ipnet := if l_public l then ifaces else [].
+Definition parse_lists (ifaces : list ipnet) (l : lists) : option epolicy :=
   match parse_nets (l_block l), parse_pats (l_domains l), parse_nets (l_phantom l), parse_nets (l_allow l) with
-  | Some b, Some d, Some ph, Some a => Some (mkEP b a ph d)
+  | Some b, Some d, Some ph, Some a => Some (mkEP (b ++ implicit_block ifaces l) a ph d)
   | _, _, _, _ => None
   end.
-Definition load (f : efile) : option epolicy :=
-  match f with EFail => None | ELists l => parse_lists l end.
+Definition load (ifaces : list ipnet) (f : efile) : option epolicy :=
+  match f with EFail => None | ELists l => parse_lists ifaces l end.
 
 (* ---------- decisions ---------- *)
 Definition is_nil {A} (l : list A) : bool := match l with [] => true | _ => false end.
@@ -269,9 +272,9 @@ End Decide.
 
 (* ---------- (re)loads: the policy in force ---------- *)
 (* main.go's SIGHUP step + OnReload, policy part: replaced iff the new file loads *)
-Definition reload_pol (cur : epolicy) (f : efile) : epolicy :=
-  match load f with Some p => p | None => cur end.
-Definition reloads_pol (cur : epolicy) (l : list efile) : epolicy := fold_left reload_pol l cur.
+Definition reload_pol (ifaces : list ipnet) (cur : epolicy) (f : efile) : epolicy :=
+  match load ifaces f with Some p => p | None => cur end.
+Definition reloads_pol (ifaces : list ipnet) (cur : epolicy) (l : list efile) : epolicy := fold_left (reload_pol ifaces) l cur.
 
 (* "some entry of the configuration forbids the host": a pattern matching the host text, the address
    outside a non-empty allowlist, or inside the blocklist when there is no allowlist *)
